@@ -1278,7 +1278,9 @@ def _schedule(prop, tier, seed):
         # Teddy, rebuilt from the natively dumped AVX2 searchers and called on the concrete implementation
         # (Kani mis-models Arc<dyn Trait> around a 32-byte aligned payload; DESIGN 3 C06)
         acases = [PackedCase(prop.lower() + "lf_fat1", [b"\xe9", "bc"], mk="lf", force="fat"),
-                  PackedCase(prop.lower() + "lf_s256", ["a", "bc"], mk="lf", force="teddy256")]
+                  PackedCase(prop.lower() + "lf_s256", ["a", "bc"], mk="lf", force="teddy256"),
+                  # 4-byte fingerprints on the fat variant (Fat<V,4>::find: seeded C06e)
+                  PackedCase(prop.lower() + "lf_fat4q", ["abcd", "bcde"], mk="lf", force="fat")]
         tcases += acases
         cases += tcases
 
@@ -1386,6 +1388,14 @@ def _schedule(prop, tier, seed):
                                      unsat_ok={"a writer failure after some output"},
                                      functions=["Automaton::try_stream_replace_all_with", "StreamChunkIter::new"] + F_STREAM + F_KIND["dfa"])
                         hs.append(hw)
+                        # the slice-table entry point (its own wrapper around the writer: seeded C18c)
+                        hs.append(Harness("h_swfaulttbl_%s_dfa_t%d" % (c.name, t_), c, _body(c, "dfa", "t::stream_wfault_tbl::<%s, _, %d, %d>(&a)" % (c.mod, t_, 2 * t_ + 2)),
+                                          max(base_unwind(c, facts, t_), c.maxlen + 3, 2 * t_ + 4), [("hay", ("bytes", t_))],
+                                          dict(template="stream_wfault_tbl", replay_template="stream", kind="dfa", T=t_, cap=c.maxlen + 1,
+                                               fixed_inputs={"spare": 1, "fault": 1, "table": 1},
+                                               symbolic=["stream bytes", "size of every read()", "index of the failing write() call"]),
+                                          timeout=1500, mem_gb=28, unwindset=stream_unwindset(c, t_, c.maxlen + 1),
+                                          functions=["Automaton::try_stream_replace_all", "Automaton::try_stream_replace_all_with", "StreamChunkIter::new"] + F_STREAM + F_KIND["dfa"]))
                     if not quick:
                         h = h_stream_replace(prop, c, facts, "dfa", t=2, wfault=True, timeout=5400)
                         h.mem_gb = 28
